@@ -202,6 +202,92 @@ def validate(rep, prop, hists, scratch, label='store'):
         rep.notes['rejected_traces_attributed_elsewhere'] = other
 
 
+def runtime_declarations(rep):
+    """C09 (_generate 'inserts the given processes, topology and initial state')
+    read together with InitState.tla (a declared variable holds the given value,
+    its default otherwise): a process generated at run time (or handed to a
+    daughter at a division) whose port is wired outside its new compartment
+    declares a variable there.  No state is given for it: it must hold its
+    default from the moment it exists, for plain, nested and '_path'
+    topologies."""
+    from vivarium.core.engine import Engine
+    from vivarium.core.process import Process
+
+    class Late(Process):
+        defaults = {'time_step': 1}
+
+        def ports_schema(self):
+            return {'out': {'fresh': {'_default': 7, '_emit': True}},
+                    'own': {'mine': {'_default': 3, '_emit': True}}}
+
+        def next_update(self, timestep, states):
+            return {'out': {'fresh': 1}, 'own': {'mine': 1}}
+
+    class Own(Process):
+        defaults = {'time_step': 1}
+
+        def ports_schema(self):
+            return {'own': {'mine': {'_default': 3, '_emit': True}}}
+
+        def next_update(self, timestep, states):
+            return {}
+
+    class Maker(Process):
+        defaults = {'time_step': 1, 'topology': None, 'divide': False}
+
+        def ports_schema(self):
+            return {'agents': {'*': {}}}
+
+        def next_update(self, timestep, states):
+            if getattr(self, 'done', False):
+                return {}
+            self.done = True
+            if self.parameters['divide']:
+                return {'agents': {'_divide': {'mother': 'm', 'daughters': [
+                    {'key': k, 'processes': {'late': Late()},
+                     'topology': {'late': self.parameters['topology']}, 'initial_state': {}}
+                    for k in ('n', 'n2')]}}}
+            return {'agents': {'_generate': [{
+                'key': 'n', 'processes': {'late': Late()},
+                'topology': {'late': self.parameters['topology']},
+                'initial_state': {}}]}}
+    forms = {
+        'plain': ({'out': ('..', '..', 'shared'), 'own': ('own',)}, ('shared', 'fresh')),
+        'nested': ({'out': ('..', 'side', 'deep'), 'own': ('own',)},
+                   ('agents', 'side', 'deep', 'fresh')),
+        '_path': ({'out': {'_path': ('..', '..', 'shared2')}, 'own': ('own',)},
+                  ('shared2', 'fresh')),
+    }
+    for name, (topo, where) in [(n + d, f) for n, f in forms.items() for d in ('', ' divide')]:
+        rep.evaluations += 1
+        sig = {'kind': 'runtime-declaration', 'topology': name}
+        div = name.endswith('divide')
+        try:
+            procs = {'maker': Maker({'topology': topo, 'divide': div})}
+            tp = {'maker': {'agents': ('agents',)}}
+            if div:
+                procs['agents'] = {'m': {'p0': Own()}}
+                tp['agents'] = {'m': {'p0': {'own': ('own',)}}}
+            eng = Engine(processes=procs, topology=tp,
+                         initial_state={} if div else {'agents': {}},
+                         display_info=False, emitter='null')
+            eng.update(1)
+            after1 = eng.state.get_path(where).value
+            own1 = eng.state.get_path(('agents', 'n', 'own', 'mine')).value
+            eng.update(1)
+            after2 = eng.state.get_path(where).value - (1 if div else 0)   # two daughters
+        except Exception as e:
+            rep.violation(sig, 'C09 a process generated at run time that declares a variable '
+                          'outside its compartment (%s topology %r): %r' % (name, topo, e), {})
+            continue
+        if (after1, own1, after2) != (7, 3, 8):
+            rep.violation(sig, 'C09 a process generated at run time declares %r outside its '
+                          'compartment (%s topology): after the _generate it holds %r (default '
+                          '7), its own variable %r (default 3), one update later %r (expected 8)'
+                          % (where, name, after1, own1, after2), {})
+        rep.nontrivial.add('runtime-declaration-' + name)
+
+
 def check(prop, tier, seed):
     rep = Report(prop, tier, seed)
     rep.rule = ('TLC: exhaustive model checking of Store.tla; implementation: every '
@@ -219,6 +305,8 @@ def check(prop, tier, seed):
     with tlc.Scratch() as scratch:
         model_check(rep, prop, tier, scratch)
         validate(rep, prop, histories(tier, seed), scratch)
+        if prop == 'C09':
+            rep.guard(runtime_declarations, rep, what='runtime declarations')
         if prop == 'C10':
             from vv import props_engine
             props_engine.struct_check(rep, tier, seed, scratch)
